@@ -5,6 +5,9 @@
 #define GEN_POS(d_)  ((d_)->pos)
 #define GEN_ELEM(d_) ((d_)->elem)
 #define GEN_SETPOS(d_, p_) ((d_)->pos = (p_))
-/* the value delivered at pos is the generator's own expression of (base, step, pos), evaluated in double */
-#define GEN_EXPECT(d_, p_)  ((d_)->base + (p_) * (d_)->step)
-#define GEN_EXPECT_NEXT(d_, p_, cur_) GEN_EXPECT(d_, (p_) + 1)
+/* the value delivered at pos is the generator's own expression of (base, step, pos), evaluated in double
+ * from the object's fields (identical operands: the two multiplier circuits are shared, not compared) */
+#define GEN_EXPECT(d_)  ((d_)->base + (d_)->pos * (d_)->step)
+#define GEN_EXPECT_NEXT(d_, cur_) GEN_EXPECT(d_)
+#define GEN_SAME_PARAMS(a_, b_) (bits((a_)->base) == bits((b_)->base) && bits((a_)->step) == bits((b_)->step))
+#define GEN_BEFORE_ADVANCE(d_) ((void) 0)
